@@ -331,6 +331,70 @@ Definition line_sseq (id : Z) (c : case float) (ks : list call) (r : res (list (
           end
      else "unspecified").
 
+(* ================= stream `svc`: query SEQUENCES on ONE CostModelService =================
+   CostModelService::build is a function of (configuration, query, state model): every query of a sequence must get the
+   cost model a fresh service would give it -- its OWN weights / vehicle_rates / cost_aggregation overrides.  Observed per
+   query: traversal_cost(this, p, st) and edge_cost((other, this), this, p, st) of the model built for it. *)
+Definition query (A : Type) : Type := (option (list (string * A)) * option (list (string * vrate A)) * option agg)%type.
+Definition with_query {A} (c : case A) (q : query A) : case A :=
+  Build_case (c_names c) true (c_w c) (c_v c) (c_n c) (c_agg c) (c_ignore c) (fst (fst q)) (snd (fst q)) (snd q)
+             (c_this c) (c_other c) (c_has_other c) (c_p c) (c_sa c) (c_st c).
+Definition run_query (N : Num) (c : case N) (q : query N) : res (res N * res N) :=
+  let c' := with_query c q in
+  do cm <- build N c';
+  Ok (traversal_cost N cm (c_this c) (c_p c) (c_st c),
+      edge_cost N cm (Some (c_other c, c_this c)) (c_this c) (c_p c) (c_st c)).
+Definition show_rq (r : res (res float * res float)) : string :=
+  show_res (fun x => "(" ++ show_res show_float (fst x) ++ ";" ++ show_res show_float (snd x) ++ ")") r.
+Definition show_svc (r : res (list (res (res float * res float)))) : string :=
+  match r with
+  | Ok l => "svc=Ok " ++ show_list show_rq l
+  | Err c => "svc=Err " ++ c
+  | Panic _ => "svc=Panic"
+  | OutOfFuel => "svc=Hang"
+  end.
+Definition line_msvc (id : Z) (c : case float) (qs : list (query float)) : string :=
+  line "M" id (show_svc (Ok (map (run_query FN c) qs))).
+
+Module JudgeSvc.
+  Import CostSpec Judge.
+  Local Open Scope Q_scope.
+  Definition judge_q (c : case Q) (r : res (res float * res float)) : bool :=
+    match r with
+    | Err cls => match judge c (Err cls) with [] => true | _ => false end
+    | Ok (tc, ec) =>
+        let fs := feats c in let a := eff_a c in
+        let p := c_p c in let st := c_st c in let this := c_this c in
+        let pf := Some (c_other c, this) in
+        let okt := covers fs p st in
+        let vt := veh_total a fs p st in let vtm := veh_mag a fs p st in
+        let et := edge_total a fs this p st in let etm := edge_mag a fs this p st in
+        judge1 Positive okt (vtm + etm) (vt + et) tc
+        && judge1 Positive okt (vtm + etm + turn_mag a fs pf p st) (vt + et + turn_total a fs pf p st) ec
+    | _ => false
+    end.
+  Fixpoint judge_qs (c : case Q) (i : nat) (qs : list (query Q)) (rs : list (res (res float * res float))) : list string :=
+    match qs, rs with
+    | [], [] => []
+    | q :: qs', r :: rs' =>
+        (if judge_q (with_query c q) r then [] else ["query" ++ show_nat i]) ++ judge_qs c (S i) qs' rs'
+    | _, _ => ["length"]
+    end.
+End JudgeSvc.
+Definition query_map {A B} (g : A -> B) (q : query A) : query B :=
+  (option_map (amap g) (fst (fst q)), option_map (amap (vmap g)) (snd (fst q)), snd q).
+Definition line_ssvc (id : Z) (c : case float) (qs : list (query float)) (r : res (list (res (res float * res float)))) : string :=
+  line "S" id
+    (if forallb (fun q => case_all finiteb (with_query c q)) qs && case_all finiteb c
+     then match r with
+          | Ok rs => match JudgeSvc.judge_qs (case_map F2Q c) 0 (map (query_map F2Q) qs) rs with
+                     | [] => show_svc r
+                     | bad => "REJECT " ++ join "," bad
+                     end
+          | _ => "REJECT service"
+          end
+     else "unspecified").
+
 (* ================= stream `builder`: network rates read from CSV files by NetworkCostRateBuilder =================
    The harness writes the tables of the case to CSV files, builds the REAL builder, and observes on the returned
    rate: traversal_cost for every probed edge, access_cost for every probed pair, and CostModel::edge_cost of a
